@@ -63,6 +63,104 @@ let hex_of_bytes (l : z list) : string =
   List.iter (fun b -> Buffer.add_string buf (Printf.sprintf "%02x" (int_of_z b))) l;
   Buffer.contents buf
 
+(* ---- native MD4 (instantiates the model's hash parameter H for speed; the
+   Gallina md4 is cross-checked against the implementation by component
+   "md4", and the theorems hold for every H) ---- *)
+let md4_native (msg : Bytes.t) : Bytes.t =
+  let n = Bytes.length msg in
+  let padlen = let r = (n + 1) mod 64 in (if r <= 56 then 56 - r else 120 - r) in
+  let total = n + 1 + padlen + 8 in
+  let p = Bytes.make total '\000' in
+  Bytes.blit msg 0 p 0 n;
+  Bytes.set p n '\x80';
+  let bits = Int64.mul (Int64.of_int n) 8L in
+  for i = 0 to 7 do
+    Bytes.set p (total - 8 + i) (Char.chr (Int64.to_int (Int64.logand (Int64.shift_right_logical bits (8*i)) 0xffL)))
+  done;
+  let m = 0xffffffff in
+  let rotl x s = ((x lsl s) land m) lor (x lsr (32 - s)) in
+  let a = ref 0x67452301 and b = ref 0xefcdab89 and c = ref 0x98badcfe and d = ref 0x10325476 in
+  let x = Array.make 16 0 in
+  for blk = 0 to total / 64 - 1 do
+    for i = 0 to 15 do
+      let o = blk * 64 + 4 * i in
+      x.(i) <- Char.code (Bytes.get p o) lor (Char.code (Bytes.get p (o+1)) lsl 8)
+               lor (Char.code (Bytes.get p (o+2)) lsl 16) lor (Char.code (Bytes.get p (o+3)) lsl 24)
+    done;
+    let aa = !a and bb = !b and cc = !c and dd = !d in
+    let f x y z = (x land y) lor ((lnot x) land m land z) in
+    let g x y z = (x land y) lor (x land z) lor (y land z) in
+    let h x y z = x lxor y lxor z in
+    let st = [| !a; !b; !c; !d |] in
+    (* registers rotate: position 0 is updated, then the state becomes (d,a',b,c) *)
+    let round fn cst order shifts =
+      List.iteri (fun j k ->
+        let s = List.nth shifts (j mod 4) in
+        let a0 = st.(0) and b0 = st.(1) and c0 = st.(2) and d0 = st.(3) in
+        let a' = rotl ((a0 + fn b0 c0 d0 + x.(k) + cst) land m) s in
+        st.(0) <- d0; st.(1) <- a'; st.(2) <- b0; st.(3) <- c0) order in
+    round f 0 [0;1;2;3;4;5;6;7;8;9;10;11;12;13;14;15] [3;7;11;19];
+    round g 0x5a827999 [0;4;8;12;1;5;9;13;2;6;10;14;3;7;11;15] [3;5;9;13];
+    round h 0x6ed9eba1 [0;8;4;12;2;10;6;14;1;9;5;13;3;11;7;15] [3;9;11;15];
+    a := (aa + st.(0)) land m; b := (bb + st.(1)) land m;
+    c := (cc + st.(2)) land m; d := (dd + st.(3)) land m
+  done;
+  let out = Bytes.create 16 in
+  List.iteri (fun i v ->
+    for j = 0 to 3 do Bytes.set out (4*i+j) (Char.chr ((v lsr (8*j)) land 0xff)) done) [!a; !b; !c; !d];
+  out
+
+let byte_tbl = Array.init 256 z_of_int
+let zlist_of_bytes (b : Bytes.t) : z list =
+  let rec go i acc = if i < 0 then acc else go (i-1) (byte_tbl.(Char.code (Bytes.get b i)) :: acc) in
+  go (Bytes.length b - 1) []
+let bytes_of_zlist (l : z list) : Bytes.t =
+  let n = List.length l in
+  let b = Bytes.create n in
+  List.iteri (fun i v -> Bytes.set b i (Char.chr (int_of_z v))) l; b
+let h_native (l : z list) : z list = zlist_of_bytes (md4_native (bytes_of_zlist l))
+
+let fnv64 (l : z list) : string =
+  let h = ref 0xcbf29ce484222325L in
+  List.iter (fun b -> h := Int64.mul (Int64.logxor !h (Int64.of_int (int_of_z b))) 0x100000001b3L) l;
+  Printf.sprintf "%016Lx" !h
+
+let chunk_size = z_of_int 262144
+
+let parse_head (s : string) : sum_head =
+  match List.map z_of_string (split ',' s) with
+  | [c; b; sl; r] -> { h_count = c; h_blen = b; h_slen = sl; h_rem = r }
+  | _ -> failwith "bad head"
+
+let string_of_head (h : sum_head) =
+  Printf.sprintf "%s,%s,%s,%s" (string_of_z h.h_count) (string_of_z h.h_blen) (string_of_z h.h_slen) (string_of_z h.h_rem)
+
+let string_of_tokens (ts : token list) : string =
+  String.concat "," (List.map (function
+    | Lit bs -> Printf.sprintf "L%d:%s" (List.length bs) (fnv64 bs)
+    | Ref i -> "R" ^ string_of_z i) ts)
+
+(* ---- md4: Gallina md4 (the model's) ---- *)
+let run_md4 fields = match fields with
+  | [hx] -> hex_of_bytes (md4 (bytes_of_hex hx))
+  | _ -> failwith "md4: want 1 field"
+
+(* ---- sender ---- *)
+let run_sender fields = match fields with
+  | [seed; head; sums; target] ->
+    let h = parse_head head in
+    let sums = List.map (fun s -> match split ':' s with
+      | [s1; s2] -> (z_of_string s1, bytes_of_hex s2)
+      | _ -> failwith "bad sum") (split ';' sums) in
+    (match send_one h_native (z_of_string seed) chunk_size h sums (bytes_of_hex target) with
+     | SOk (h', toks, trailer) ->
+       Printf.sprintf "H:%s|T:%s|S:%s" (string_of_head h') (string_of_tokens toks)
+         (String.concat "" (List.map (fun b -> Printf.sprintf "%02x" (int_of_z b)) trailer))
+     | SCrash CrashUpdate0 -> "CRASH:update0"
+     | SCrash CrashUpdateK -> "CRASH:updatek"
+     | SFuel -> "FUEL")
+  | _ -> failwith "sender: want 4 fields"
+
 (* ---- acl ---- *)
 let acl_rule (t : string) : rule =
   match split ':' t with
@@ -90,6 +188,8 @@ let run_acl fields =
 let dispatch comp fields =
   match comp with
   | "acl" -> run_acl fields
+  | "md4" -> run_md4 fields
+  | "sender" -> run_sender fields
   | _ -> failwith ("unknown component " ^ comp)
 
 let () =
